@@ -85,6 +85,15 @@ def scaler_case(cid, kind, X, w, wm, ws, cw, atol=(0, 1), rtol=(0, 1), tiny=True
         first = [int(np.argmax(rep == i)) if (rep == i).any() else -1 for i in range(n)]
         if all(f >= 0 for f in first) and len(rep) >= 2:
             route("repeated-rows", Xf[rep], None, rows=first)
+            # one large size: the same weighted sample written out as a few thousand rows (every row K times its weight; the
+            # total is neither small nor a multiple of a power of two, and the tail consists of copies of the last rows only)
+            if rng.random() < 0.4:
+                K = int(rng.integers(1100, 2700)) // max(1, int(np.sum(w))) + 1
+                repK = np.repeat(np.arange(n), np.asarray(w, int) * K)
+                if len(repK) % 1024 == 0:
+                    repK = np.repeat(np.arange(n), np.asarray(w, int) * (K + 1))
+                firstK = [int(np.argmax(repK == i)) for i in range(n)]
+                route("repeated-rows-large", Xf[repK], None, rows=firstK)
     if w is None and wm and ws and cw:
         route("sklearn-StandardScaler", Xf, None, sk=True)
     if wm and tiny:
